@@ -114,22 +114,27 @@ def stripTerminator (v : List Nat) : List Nat :=
 /-- the fixed file info: present iff the root value is the 52 bytes of VS_FIXEDFILEINFO -/
 def VInfo.fixed (v : VInfo) : Option (List Nat) := if v.value.length = 26 then some v.value else none
 
+def VTable.triples (t : VTable) : List (List Nat × List Nat × List Nat) :=
+  t.strings.map fun s => (t.lang, s.key, stripTerminator s.stored)
+
+def VBlock.triples : VBlock → List (List Nat × List Nat × List Nat)
+  | .stringInfo ts => ts.flatMap VTable.triples
+  | .varInfo _ => []
+
 /-- every (language, key, value) in stored order -/
-def VInfo.strings (v : VInfo) : List (List Nat × List Nat × List Nat) :=
-  v.blocks.flatMap fun
-    | .stringInfo ts => ts.flatMap fun t => t.strings.map fun s => (t.lang, s.key, stripTerminator s.stored)
-    | .varInfo _ => []
+def VInfo.strings (v : VInfo) : List (List Nat × List Nat × List Nat) := v.blocks.flatMap VBlock.triples
 
 /-- (language, codepage) pairs of a Var value -/
 def pairs : List Nat → List (Nat × Nat)
   | a :: b :: rest => (a, b) :: pairs rest
   | _ => []
 
+def VBlock.translationVars : VBlock → List (List Nat)
+  | .stringInfo _ => []
+  | .varInfo vs => (vs.filter fun x => x.key = kTranslation).map (·.value)
+
 /-- all Translation values in stored order (the documented layout has exactly one) -/
-def VInfo.translationVars (v : VInfo) : List (List Nat) :=
-  v.blocks.flatMap fun
-    | .stringInfo _ => []
-    | .varInfo vs => (vs.filter fun x => x.key = kTranslation).map (·.value)
+def VInfo.translationVars (v : VInfo) : List (List Nat) := v.blocks.flatMap VBlock.translationVars
 
 /-- the translation list -/
 def VInfo.translations (v : VInfo) : List (Nat × Nat) :=
@@ -157,6 +162,24 @@ def VBlock.events : VBlock → List SEvent
 
 def VInfo.events (v : VInfo) : List SEvent :=
   [.versionInfo v.key v.fixed, .enter 0] ++ v.blocks.flatMap VBlock.events ++ [.exit 0]
+
+/-- reading an event list: remember the string table last seen, file every string under it -/
+def triplesStep (st : List Nat × List (List Nat × List Nat × List Nat)) :
+    SEvent → List Nat × List (List Nat × List Nat × List Nat)
+  | .stringTable l => (l, st.2)
+  | .string k v => (st.1, st.2 ++ [(st.1, k, v)])
+  | _ => st
+
+/-- the (language, key, value) triples an event list reports: each string under the string
+table that precedes it -/
+def triples (es : List SEvent) : List (List Nat × List Nat × List Nat) := (es.foldl triplesStep ([], [])).2
+
+def translationOf : SEvent → Option (List Nat)
+  | .var k v => if k = kTranslation then some v else none
+  | _ => none
+
+/-- the Translation values an event list reports -/
+def translationValues (es : List SEvent) : List (List Nat) := es.filterMap translationOf
 
 /-! ### well-formedness (decidable) -/
 
